@@ -79,13 +79,22 @@ with pinfix (n : nat) (f : ifn) (l : expr) (p : ps) : res (expr * ps) :=
     match f with
     | IInfix => let t := cur p in do '(r, p) <- pexpr n (prec (ty t)) (next p); Some (EInfix t l r, p)
     | ICall => let t := cur p in do '(a, p) <- pargs n p; Some (ECall t l a, p)
-    | IIndex => let t := cur p in let p := next p in let idx := EIdent (cur p) in
-                if tt_beq (ty t) DOT then Some (EIndex t l idx, p)
-                else let '(ok, p) := expect_peek p RBRACKET in Some (if ok then EIndex t l idx else ENil, p)
-    | IBetween => let t := cur p in let p := next p in let lo := EIdent (cur p) in
-                  let '(ok, p) := expect_peek p AND in
-                  if ok then let p := next p in Some (EBetween t l lo (EIdent (cur p)), p) else Some (ENil, p)
-    | IIn => let p := next p in let t := cur p in do '(a, p) <- pargs n p; Some (EIn t l a, p)
+    | IIndex => let t := cur p in
+                let '(ok0, p) := expect_peek p IDENT in
+                if negb ok0 then Some (ENil, p)
+                else let idx := EIdent (cur p) in
+                     if tt_beq (ty t) DOT then Some (EIndex t l idx, p)
+                     else let '(ok, p) := expect_peek p RBRACKET in Some (if ok then EIndex t l idx else ENil, p)
+    | IBetween => let t := cur p in
+                  let '(ok0, p) := expect_peek p IDENT in
+                  if negb ok0 then Some (ENil, p)
+                  else let lo := EIdent (cur p) in
+                       let '(ok, p) := expect_peek p AND in
+                       if negb ok then Some (ENil, p)
+                       else let '(ok2, p) := expect_peek p IDENT in
+                            if ok2 then Some (EBetween t l lo (EIdent (cur p)), p) else Some (ENil, p)
+    | IIn => let '(ok, p) := expect_peek p LPAREN in
+             if ok then let t := cur p in do '(a, p) <- pargs n p; Some (EIn t l a, p) else Some (ENil, p)
     end
   end
 with pargs (n : nat) (p : ps) : res (option (list expr) * ps) :=
@@ -122,8 +131,8 @@ with pactions_more (n : nat) (t : token) (acc : list expr) (p : ps) : res (list 
       let p := next p in let t' := cur p in
       do '(other, p) <- pactions n t' p;
       match other with
-      | Some l => pactions_more n t (acc ++ l) p
-      | None => pactions_more n t acc p
+      | Some ((_ :: _) as l) => pactions_more n t (acc ++ l) p
+      | _ => pactions_more n t acc (add_err p)       (* a further clause keyword without any action *)
       end
     else Some (acc, p)
   end.
